@@ -315,9 +315,16 @@ func gRunSeq(res *engine.Result, c gCase, ops []int, ci int, flt *gFault) (inter
 			}
 		}
 		c0, m0 := engine.Versions(w.B.Snapshot(), lay)
+		rows0, rerr0 := cl.Query(selAll)
 		verr, err := cl.Vacuum(cut)
 		if err != nil || verr != "" {
 			viol("c09", "vacuum-failed", "s3db_vacuum(%s) failed: %v %s", engine.TS(cut), err, verr)
+			return false
+		}
+		// the core oracle at EVERY vacuum of the history, not only the final one: the vacuuming connection shows
+		// the same rows. A violation ends the sequence here, so its consequences do not turn up under other names.
+		if rows1, rerr1 := cl.Query(selAll); rerr0 == nil && (rerr1 != nil || !rows1.Equal(rows0)) {
+			viol("c09", "vacuuming-connection-rows-changed", "rows on the vacuuming connection: before %v, after %v (err %v) [vacuum with cutoff %s in the middle of the history]", rows0, rows1, rerr1, cut.Format("15:04:05"))
 			return false
 		}
 		c1, m1 := engine.Versions(w.B.Snapshot(), lay)
